@@ -201,7 +201,22 @@ func TestVerifC03(t *testing.T) {
 				Rs = append(Rs, R, R.Neg())
 			}
 		}
-		for x := int64(1); len(Rs) < hk.N(8, 32) && x < 400; x++ {
+		// the two finite points with x = 0 (b is a square mod p): x1 = 0 is NOT the point at infinity
+		if R, ok := ref.LiftX(bi(0)); ok {
+			Rs = append(Rs, R, R.Neg())
+		} else {
+			rep.Inconclusive("c03: model finds no point with x = 0")
+		}
+		// x1 in [n, p): reduced mod n it wraps to a tiny value; and x1 just below n, around 2^255, 2^128, 2^64
+		for _, base := range []*big.Int{nI, new(big.Int).Sub(nI, bi(40)), new(big.Int).Lsh(bi(1), 255), new(big.Int).Lsh(bi(1), 128), new(big.Int).Lsh(bi(1), 64), new(big.Int).Lsh(bi(1), 32)} {
+			for dx := int64(0); dx < 40; dx++ {
+				if R, ok := ref.LiftX(new(big.Int).Add(base, bi(dx))); ok {
+					Rs = append(Rs, R)
+					break
+				}
+			}
+		}
+		for x := int64(1); len(Rs) < hk.N(18, 48) && x < 400; x++ {
 			if R, ok := ref.LiftX(bi(x)); ok {
 				Rs = append(Rs, R)
 			}
@@ -225,6 +240,11 @@ func TestVerifC03(t *testing.T) {
 				}
 				twoN := new(big.Int).Lsh(nI, 1)
 				label := "valid:chosen-e-and-R"
+				if R.X.Sign() == 0 {
+					label = "valid:x1=0"
+				} else if R.X.Cmp(nI) >= 0 {
+					label = "valid:x1>=n"
+				}
 				if new(big.Int).Add(ref.Int(e), R.X).Cmp(twoN) >= 0 {
 					label = "valid:e+x1>=2n"
 				} else if ref.Int(e).Cmp(nI) >= 0 {
